@@ -72,7 +72,7 @@ ASSUMPTIONS = [
 PROJS = ['TAN', 'SIN']
 ROTS = [0.0, 30.0, 137.0, -90.0, 200.0]
 SCALES = [1e-3, 1e-5, 1e-2]
-FRAME_NAMES = ['icrs', 'fk5', 'galactic']
+FRAME_NAMES = ['icrs', 'fk5', 'galactic', 'fk5_j1975']
 CRVALS = [(40.0, 20.0), (0.0, 0.0), (266.0, -29.0), (120.0, 80.0)]
 OFFSETS = [(0.0, 0.0), (30.0, -40.0), (250.0, 150.0)]
 ANGLES = [0.0, 33.0, 90.0, 120.0, -45.0]
@@ -197,7 +197,14 @@ def check_config(res, spec, off, ws):
     try:
         with warnings.catch_warnings():
             warnings.simplefilter('ignore')
+            from mc import fingerprint as _FP
+            fp_before = _FP.fp(sky)
             pix = sky.to_pixel(w)
+            pix_again = sky.to_pixel(w)
+            if _FP.fp(sky) != fp_before:
+                res.violation(ID, 'conversion_mutates_sky_region', case, f'to_pixel changed the {cls} sky region it was called on')
+            if _FP.fp(pix_again) != _FP.fp(pix):
+                res.violation(ID, 'conversion_not_repeatable', case, f'two to_pixel calls on the same {cls} sky region give different pixel regions')
     except Exception as exc:
         cx.bad('unexpected_exception', f'to_pixel raised {type(exc).__name__}: {exc}')
         res.outcome((cls, ws['proj'], ws['rot'], ws['frame'], 'raised'))
